@@ -214,4 +214,62 @@ theorem readDefined_no_defined (isDef : String → Bool) (ts : List Tok)
     unfold readDefined
     split <;> simp_all
 
+-- ------------------------------------------------------------------ closed expressions
+
+/-- no identifier and no `defined`: the value cannot depend on the macro table -/
+def Expr.closed : Expr → Bool
+  | .num _ _ => true
+  | .ident _ => false
+  | .defined _ => false
+  | .un _ e => e.closed
+  | .bin _ a b => a.closed && b.closed
+  | .cond c a b => c.closed && a.closed && b.closed
+
+theorem ctyOf_closed (d d' : Defs Body) : ∀ (f : Nat) (h : List String) (e : Expr), e.closed = true →
+    ctyOf d f h e = ctyOf d' f h e := by
+  intro f
+  induction f with
+  | zero => intro h e _; rfl
+  | succ f ih =>
+    intro h e hc
+    cases e with
+    | num v u => rfl
+    | ident n => simp [Expr.closed] at hc
+    | defined n => rfl
+    | un op a =>
+      simp only [Expr.closed] at hc
+      cases op <;> simp only [ctyOf, ih h a hc]
+    | bin op a b =>
+      simp only [Expr.closed, Bool.and_eq_true] at hc
+      cases op <;> simp only [ctyOf, ih h a hc.1, ih h b hc.2]
+    | cond c a b =>
+      simp only [Expr.closed, Bool.and_eq_true] at hc
+      simp only [ctyOf, ih h a hc.1.2, ih h b hc.2]
+
+theorem evalN_closed (nb : Bool) (d d' : Defs Body) : ∀ (f : Nat) (h : List String) (e : Expr), e.closed = true →
+    evalN nb d f h e = evalN nb d' f h e := by
+  intro f
+  induction f with
+  | zero => intro h e _; rfl
+  | succ f ih =>
+    intro h e hc
+    cases e with
+    | num v u => rfl
+    | ident n => simp [Expr.closed] at hc
+    | defined n => simp [Expr.closed] at hc
+    | un op a =>
+      have hc' : a.closed = true := by simpa [Expr.closed] using hc
+      simp only [evalN, ih h a hc', ctyOf_closed d d' (f+1) h (.un op a) hc]
+    | bin op a b =>
+      have hc' : a.closed = true ∧ b.closed = true := by simpa [Expr.closed] using hc
+      cases op <;> simp only [evalN, ih h a hc'.1, ih h b hc'.2, ctyOf_closed d d' (f+1) h (.bin _ a b) hc]
+    | cond c a b =>
+      have hc' : (c.closed = true ∧ a.closed = true) ∧ b.closed = true := by simpa [Expr.closed] using hc
+      simp only [evalN, ih h c hc'.1.1, ih h a hc'.1.2, ih h b hc'.2, ctyOf_closed d d' (f+1) h (.cond c a b) hc]
+
+theorem intResultOverflows_closed (d : Defs Body) (e : Expr) (hc : e.closed = true) :
+    intResultOverflows d e = intResultOverflows [] e := by
+  unfold intResultOverflows; rw [evalN_closed false d [] FUEL [] e hc]
+
+
 end ChibiVerif.PPExpr
